@@ -31,9 +31,12 @@ type Obligation struct {
 
 // FnCtx translates one SSA function.
 type FnCtx struct {
-	eng *Engine
-	fn  *ssa.Function
-	c   *Contract
+	eng  *Engine
+	fn   *ssa.Function
+	c    *Contract
+	name string
+	pkg  *types.Package
+	lemmaMode bool
 
 	decls     []string
 	declared  map[string]string
@@ -206,21 +209,21 @@ func (fc *FnCtx) oblige(kind, detail, goal string, pos token.Pos, descr string) 
 func (fc *FnCtx) obligeAt(st *State, kind, detail, goal string, pos token.Pos, descr string) {
 	key := kind + ":" + detail
 	n := fc.ordinal(key)
-	name := fmt.Sprintf("%s#%s@%d", fc.eng.fnName(fc.fn), key, n)
+	name := fmt.Sprintf("%s#%s@%d", fc.name, key, n)
 	if goal == "true" {
 		// trivially discharged; still counted so that obligation names are stable
 		goal = "true"
 	}
 	fc.obls = append(fc.obls, &Obligation{
-		Name: name, Kind: kind, Fn: fc.eng.fnName(fc.fn), Pos: fc.posOf(pos),
+		Name: name, Kind: kind, Fn: fc.name, Pos: fc.posOf(pos),
 		NDecl: len(fc.decls), Guard: st.guard, Goal: goal, Descr: descr, fc: fc,
 	})
 }
 
 func (fc *FnCtx) cover(detail string, st *State, pos token.Pos) {
-	name := fmt.Sprintf("%s#cover:%s", fc.eng.fnName(fc.fn), detail)
+	name := fmt.Sprintf("%s#cover:%s", fc.name, detail)
 	fc.obls = append(fc.obls, &Obligation{
-		Name: name, Kind: "cover", Fn: fc.eng.fnName(fc.fn), Pos: fc.posOf(pos),
+		Name: name, Kind: "cover", Fn: fc.name, Pos: fc.posOf(pos),
 		NDecl: len(fc.decls), Guard: st.guard, Goal: "false", fc: fc, Cover: true,
 	})
 }
@@ -505,6 +508,11 @@ func (fc *FnCtx) wfInto(t types.Type, L []string, facts *[]string) {
 	case *types.Interface:
 		// nil interface has zero payload
 		*facts = append(*facts, implies(eq(L[0], bvLit(0, 16)), eq(L[1], bvLit(0, 64))))
+	case *types.Pointer:
+		if !ptrIsThin(u.Elem()) {
+			// a nil fat pointer is all zero
+			*facts = append(*facts, implies(eq(L[1], bvLit(0, 64)), and(eq(L[0], bvLit(0, 16)), eq(L[2], bvLit(0, 64)))))
+		}
 	}
 }
 
